@@ -65,6 +65,7 @@ struct LThread {
 
 inline thread_local LThread* tl_self = nullptr;
 inline std::atomic<std::uint64_t> g_unscheduled_spins{0};
+inline std::atomic<std::uint64_t> g_unscheduled_steps{0}; // yield points passed by unscheduled threads since the last scheduled run
 inline thread_local int tl_noyield = 0; // >0: yields are ignored (oracle code running inside a logical thread)
 
 struct NoYield {
@@ -131,6 +132,7 @@ public:
         outcome = Outcome::Ok;
         released_.store(false);
         g_unscheduled_spins.store(0);
+        g_unscheduled_steps.store(0);
         trace.clear();
         n_workers_ = bodies.size();
         ensure_workers(n_workers_);
@@ -611,6 +613,13 @@ void yield(int kind, const void* addr) noexcept {
         // left behind by the scheduled threads
         if ((kind & Y_ACCESS_MASK) == Y_SPIN && ++sched::g_unscheduled_spins > 300000) {
             std::fprintf(stdout, "FAIL signature=lock_left msg=an unscheduled thread spins forever on a lock / dirty version left behind\n");
+            std::fflush(stdout);
+            _exit(4);
+        }
+        // setup / quiescent phases are a few thousand to a few hundred thousand yield points long; tens of millions mean a loop that
+        // waits for something nobody will ever do (e.g. for a session slot that is never released)
+        if (++sched::g_unscheduled_steps > 40000000) {
+            std::fprintf(stdout, "FAIL signature=no_termination_unscheduled msg=a call made outside the scheduled region passed 40 million yield points without returning (endless retry loop)\n");
             std::fflush(stdout);
             _exit(4);
         }
